@@ -1180,3 +1180,56 @@ Proof.
       apply read_data_ok in Hy. destruct Hy as [b [Hb [Hp [_ Hs]]]]. exists b. auto.
     + rewrite Nat.add_succ_r. apply (IH (S t) ys Hys i df tab Hdf Htab).
 Qed.
+
+(* ================================================================ C14_list_fields_without_read_meaning *)
+Lemma bind_ext : forall A B (m : M A) (f g : A -> M B), (forall a, f a = g a) -> bind m f = bind m g.
+Proof. intros A B m f g H. unfold bind. destruct (fst m) as [a|e]; [rewrite H|]; reflexivity. Qed.
+
+Lemma avro_stage_ext : forall A st k (p p' : bytes -> avro A) classes,
+  (forall b, p b = p' b) -> avro_stage st k p classes = avro_stage st k p' classes.
+Proof.
+  intros A st k p p' classes H. unfold avro_stage. destruct (fst (st_get st k (OpOpen, 0%nat))) as [b|e]; [rewrite H|]; reflexivity.
+Qed.
+
+Lemma two_stage_ext : forall A st k (p p' : bytes -> avro A) js classes,
+  (forall b, p b = p' b) -> two_stage st k p js classes = two_stage st k p' js classes.
+Proof.
+  intros A st k p p' js classes H. unfold two_stage. apply bind_ext. intro ex. destruct (negb ex); [reflexivity|].
+  rewrite (avro_stage_ext _ st k p p' classes H). reflexivity.
+Qed.
+
+Lemma get_all_list_decoder : forall E dec dec' st,
+  (forall b, project_list (dec b) = project_list (dec' b)) ->
+  get_all_data_files (with_list_decoder E dec) st = get_all_data_files (with_list_decoder E dec') st.
+Proof.
+  intros E dec dec' st H. unfold get_all_data_files.
+  change (resolve (with_list_decoder E dec) st) with (resolve E st).
+  change (resolve (with_list_decoder E dec') st) with (resolve E st).
+  apply bind_ext. intro r0. destruct (match r0 with Some md => find_snap md | None => None end) as [s|]; [|reflexivity].
+  apply bind_ext. intro ex. destruct (negb ex); [reflexivity|].
+  assert (Hl : read_list (with_list_decoder E dec) st (slist s) = read_list (with_list_decoder E dec') st (slist s)).
+  { unfold read_list. apply two_stage_ext. exact H. }
+  rewrite Hl. reflexivity.
+Qed.
+
+Lemma yielded_of_decoder : forall E dec st v dfs, yielded_of (with_list_decoder E dec) st v dfs = yielded_of E st v dfs.
+Proof.
+  intros E dec st v dfs. induction dfs as [|df tl IH]; [reflexivity|]. simpl.
+  change (read_data (with_list_decoder E dec) st v df) with (read_data E st v df).
+  change (yield_of (with_list_decoder E dec) st v df) with (yield_of E st v df).
+  rewrite IH. reflexivity.
+Qed.
+
+Theorem list_fields_without_read_meaning : forall E dec dec' st a o,
+  (forall b, project_list (dec b) = project_list (dec' b)) ->
+  read_current (with_list_decoder E dec) st a o = read_current (with_list_decoder E dec') st a o.
+Proof.
+  intros E dec dec' st a o H.
+  assert (Hr : run (with_list_decoder E dec) st a o = run (with_list_decoder E dec') st a o).
+  { unfold run. rewrite (get_all_list_decoder E dec dec' st H). reflexivity. }
+  unfold read_current. rewrite Hr. rewrite (get_all_list_decoder E dec dec' st H).
+  f_equal. destruct (fst (run (with_list_decoder E dec') st a o)) as [ans|e]; [reflexivity|].
+  destruct (is_generator a); [|reflexivity].
+  destruct (fst (get_all_data_files (with_list_decoder E dec') st)) as [dfs|e']; [|reflexivity].
+  rewrite !yielded_of_decoder. reflexivity.
+Qed.
